@@ -327,6 +327,83 @@ def _mk(n, d):
     return SymReal(None, n=n, d=d)
 
 
+# ---------------------------------------------------------------------------
+# integer mode: when every symbolic input is an integer (ToReal of an Int constant), comparisons between
+# integer-valued terms that differ by a fractional constant (the +-1e-12 tolerances of the HCM code) are
+# rewritten to pure integer comparisons, so that the solver works in linear integer arithmetic only.
+
+def _to_int_term(t):
+    """Real-sorted integer-valued term -> Int-sorted term, or None"""
+    if z3.is_int_value(t):
+        return t
+    if z3.is_rational_value(t):
+        v = _const_value(t)
+        return z3.IntVal(int(v)) if v.denominator == 1 else None
+    if not z3.is_app(t):
+        return None
+    k = t.decl().kind()
+    if k == z3.Z3_OP_TO_REAL:
+        return t.arg(0)
+    if t.sort() == z3.IntSort():
+        return t
+    if k in (z3.Z3_OP_ADD, z3.Z3_OP_SUB, z3.Z3_OP_MUL):
+        args = [_to_int_term(c) for c in t.children()]
+        if any(a is None for a in args):
+            return None
+        if k == z3.Z3_OP_MUL and sum(0 if z3.is_int_value(a) else 1 for a in args) > 1:
+            return None
+        r = args[0]
+        for a in args[1:]:
+            r = (r + a) if k == z3.Z3_OP_ADD else ((r - a) if k == z3.Z3_OP_SUB else (r * a))
+        return r
+    if k == z3.Z3_OP_UMINUS:
+        a = _to_int_term(t.arg(0))
+        return None if a is None else -a
+    if k == z3.Z3_OP_ITE:
+        a, b = _to_int_term(t.arg(1)), _to_int_term(t.arg(2))
+        if a is None or b is None:
+            return None
+        return z3.If(t.arg(0), a, b)
+    return None
+
+
+def _int_compare(op, diff):
+    """truth of  diff <op> 0  for diff = (integer-valued term) + (rational constant), as an Int-sorted
+    comparison; None if diff does not have that shape"""
+    diff = z3.simplify(diff, som=True)
+    parts = diff.children() if (z3.is_app(diff) and diff.decl().kind() == z3.Z3_OP_ADD) else [diff]
+    c = Fraction(0)
+    rest = []
+    for u in parts:
+        if _is_const(u):
+            c += _const_value(u)
+        else:
+            rest.append(u)
+    if not rest:
+        return None
+    ints = [_to_int_term(u) for u in rest]
+    if any(i is None for i in ints):
+        return None
+    D = ints[0]
+    for i in ints[1:]:
+        D = D + i
+    mc = -c                                  # D + c <op> 0   <=>   D <op> -c
+    fl, ce = math.floor(mc), math.ceil(mc)
+    if op is LT:
+        return D < ce                        # D < mc  <=>  D <= ceil(mc) - 1
+    if op is LE:
+        return D <= fl
+    if op is GT:
+        return D > fl
+    if op is GE:
+        return D >= ce
+    if op is EQ:
+        return (D == fl) if fl == ce else z3.BoolVal(False)
+    if op is NE:
+        return (D != fl) if fl == ce else z3.BoolVal(True)
+    return None
+
+
 def _sign_pred(op, n, d):
     """truth of  n/d <op> 0  as a term without division (d != 0 on the path)"""
     if d is None:
@@ -552,6 +629,10 @@ class SymReal:
                 neg = z3.Or(z3.And(a > 0, b < 0), z3.And(a < 0, b > 0))
                 zero = z3.Or(a == 0, b == 0)
                 return SymBool(z3.simplify(op.sign(pos, neg, zero)))
+            if _ENGINE[0] is not None and getattr(_ENGINE[0], "int_mode", False):
+                r = _int_compare(op, self._e - oe)
+                if r is not None:
+                    return SymBool(z3.simplify(r))
             return SymBool(z3.simplify(op.f(self._e, oe)))
         diff = self._addsub(o, -1, False)
         n, d = diff._nd()
